@@ -269,8 +269,15 @@ theorem fork_driver_has_source (hok : VOK cfg tl ports stmts) (t : VLine) (ht : 
 
 /-! ## soundness -/
 
-theorem v_model_forks {α : Type u} (hok : VOK cfg tl ports stmts) (z : α) (neg : α → α) (prim : String → α → α → α → α → α) (a : Nat → α)
-    (σ : String → α) (hm : VModel tl ports stmts z neg prim a σ) :
+/-- the driver end points of the lines of the instances selected by `HI` (the "holes") -/
+def holeEp (stmts : List Stmt) (HI : VInst → Prop) (e : Ep) : Prop := ∃ i ∈ vInsts stmts, HI i ∧ ∃ p, e = .cell i.name p
+
+theorem vModel_iff_off {α : Type u} (z : α) (neg : α → α) (prim : String → α → α → α → α → α) (a : Nat → α) (σ : String → α) :
+    VModel tl ports stmts z neg prim a σ ↔ VModelOff (fun _ => False) tl ports stmts z neg prim a σ :=
+  ⟨fun h => ⟨fun i hi _ => h.1 i hi, h.2⟩, fun h => ⟨fun i hi => h.1 i hi (fun x => x), h.2⟩⟩
+
+theorem v_pairs_forks {α : Type u} (hok : VOK cfg tl ports stmts) (z : α) (prim : String → α → α → α → α → α)
+    (σ : String → α) (hp : ∀ ts ∈ vPairs stmts, σ ts.1 = sigVal z prim σ ts.2) :
     Agree cfg tl stmts z prim (wOfV cfg tl stmts z prim σ) σ := by
   refine ⟨fun t ht => wOfV_line hok z prim σ t ht, fun s hs => ?_⟩
   rcases (mem_drivenSigs (sigDecls stmts) s).mp hs with ⟨i, hi, o, ho, rfl⟩ | hn | ⟨ts, hts, rfl⟩
@@ -281,7 +288,7 @@ theorem v_model_forks {α : Type u} (hok : VOK cfg tl ports stmts) (z : α) (neg
     simp only at this
     rw [this, sigVal_driven hok z prim σ _ hs]
   · obtain ⟨k, hk⟩ := vFlat_pair (cfg := cfg) (tl := tl) (sigDecls stmts) ts hts
-    have hpm := hm.2.2.1 ts hts
+    have hpm := hp ts hts
     unfold pairLines at hk
     by_cases hc : isConstLit ts.2 = true
     · simp only [hc, if_true, List.mem_singleton, forall_eq] at hk
@@ -293,11 +300,17 @@ theorem v_model_forks {α : Type u} (hok : VOK cfg tl ports stmts) (z : α) (neg
       simp only at this
       rw [this, hpm]
 
-theorem v_model_circ {α : Type u} (hok : VOK cfg tl ports stmts) (z : α) (neg : α → α) (prim : String → α → α → α → α → α) (a : Nat → α)
+theorem v_model_forks {α : Type u} (hok : VOK cfg tl ports stmts) (z : α) (neg : α → α) (prim : String → α → α → α → α → α) (a : Nat → α)
     (σ : String → α) (hm : VModel tl ports stmts z neg prim a σ) :
-    CircModel (module cfg tl ports stmts) (module cfg tl ports stmts).ioVerilog z neg prim a (wOfV cfg tl stmts z prim σ) := by
-  have hag := v_model_forks (cfg := cfg) hok z neg prim a σ hm
-  intro p hp
+    Agree cfg tl stmts z prim (wOfV cfg tl stmts z prim σ) σ := v_pairs_forks hok z prim σ hm.2.2.1
+
+/-- a model outside the holes satisfies the gate equation of every line that is not driven by a hole -/
+theorem v_model_circ_off {α : Type u} (hok : VOK cfg tl ports stmts) (HI : VInst → Prop) (z : α) (neg : α → α)
+    (prim : String → α → α → α → α → α) (a : Nat → α) (σ : String → α) (hm : VModelOff HI tl ports stmts z neg prim a σ) :
+    CircModelOff (module cfg tl ports stmts) (module cfg tl ports stmts).ioVerilog (holeEp stmts HI) z neg prim a
+      (wOfV cfg tl stmts z prim σ) := by
+  have hag := v_pairs_forks (cfg := cfg) hok z prim σ hm.2.2.1
+  intro p hp hH
   rw [module_flat' hok] at hp ⊢
   obtain ⟨t, ht, rfl⟩ := List.mem_map.mp hp
   show wOfV cfg tl stmts z prim σ t.r = driveVal (vL cfg tl stmts) ((module cfg tl ports stmts).kindOf t.d)
@@ -306,7 +319,7 @@ theorem v_model_circ {α : Type u} (hok : VOK cfg tl ports stmts) (z : α) (neg 
   rcases mem_vFlat_step hok t ht with ⟨i, hi, o, ho, rfl⟩ | ⟨n, hn, rfl⟩ | ⟨k, ts, hst, htp⟩ | ⟨k, i, c, hst, htc⟩ | ⟨n, hn, rfl⟩
   · rw [v_drive_inst hok i hi o.1 z neg prim a _ σ (fun t ht _ => hag.lines t ht),
       sigVal_driven hok z prim σ _ ((mem_drivenSigs _ _).mpr (Or.inl ⟨i, hi, o, ho, rfl⟩))]
-    exact hm.1 i hi o ho
+    exact hm.1 i hi (fun h => hH ⟨i, hi, h, o.1, rfl⟩) o ho
   · rw [v_drive_input hok n hn, sigVal_driven hok z prim σ _ ((mem_drivenSigs _ _).mpr (Or.inr (Or.inl hn)))]
     exact hm.2.1 n hn
   · unfold pairLines at htp
@@ -333,6 +346,35 @@ theorem v_model_circ {α : Type u} (hok : VOK cfg tl ports stmts) (z : α) (neg 
   · have hd := hok.outs n hn
     rw [v_drive_fork hok n (v_resolved_fork hok _ hd) (driven_has_line _ _ hd), hag.forks _ hd, sigVal_driven hok z prim σ _ hd]
 
+theorem v_model_circ {α : Type u} (hok : VOK cfg tl ports stmts) (z : α) (neg : α → α) (prim : String → α → α → α → α → α) (a : Nat → α)
+    (σ : String → α) (hm : VModel tl ports stmts z neg prim a σ) :
+    CircModel (module cfg tl ports stmts) (module cfg tl ports stmts).ioVerilog z neg prim a (wOfV cfg tl stmts z prim σ) :=
+  fun p hp => v_model_circ_off hok (fun _ => False) z neg prim a σ ((vModel_iff_off z neg prim a σ).mp hm) p hp
+    (fun ⟨_, _, h, _⟩ => h)
+
+theorem v_label_agrees {α : Type u} (hok : VOK cfg tl ports stmts) (z : α) (prim : String → α → α → α → α → α) (σ : String → α) :
+    ∀ j (hj : j < (flatLines (module cfg tl ports stmts)).length),
+      vLabel cfg tl stmts z prim σ j = wOfV cfg tl stmts z prim σ (flatLines (module cfg tl ports stmts))[j].2 := by
+  intro j hj
+  have hj' : j < (vL cfg tl stmts).length := by rw [← module_flat' hok]; exact hj
+  have hj'' : j < (vFlat cfg tl (sigDecls stmts) stmts).length := by rw [← vL_length]; exact hj'
+  simp only [module_flat' hok]
+  rw [vLabel_eq z prim σ j hj'', vL_get j hj']
+  exact (wOfV_line hok z prim σ _ (List.getElem_mem hj'')).symm
+
+/-- **soundness with holes**: the labelling of a model outside the holes is consistent outside every node set `S` that contains
+the hole instances' nodes -/
+theorem v_model_labelling_off {α : Type u} (hok : VOK cfg tl ports stmts) (HI : VInst → Prop) (S : Nat → Prop)
+    (hSH : ∀ i ∈ vInsts stmts, HI i → S ((module cfg tl ports stmts).nodeIdx (.cell i.name 0)))
+    (z : α) (neg : α → α) (prim : String → α → α → α → α → α)
+    (a : Nat → α) (σ : String → α) (hm : VModelOff HI tl ports stmts z neg prim a σ) :
+    NetLabellingOff (verilogNet cfg tl ports stmts) S z neg prim a (vLabel cfg tl stmts z prim σ) := by
+  apply circ_model_labelling_off _ _ (v_resolved_all hok) S (holeEp stmts HI) ?_ z neg prim a (wOfV cfg tl stmts z prim σ) _
+    (v_label_agrees hok z prim σ) (v_model_circ_off hok HI z neg prim a σ hm)
+  rintro p _ ⟨i, hi, hH, q, hq⟩
+  rw [hq]
+  exact hSH i hi hH
+
 theorem v_model_labelling {α : Type u} (hok : VOK cfg tl ports stmts) (z : α) (neg : α → α) (prim : String → α → α → α → α → α)
     (a : Nat → α) (σ : String → α) (hm : VModel tl ports stmts z neg prim a σ) :
     NetLabelling (verilogNet cfg tl ports stmts) z neg prim a (vLabel cfg tl stmts z prim σ) := by
@@ -350,17 +392,43 @@ theorem v_model_labelling {α : Type u} (hok : VOK cfg tl ports stmts) (z : α) 
 def envOfW {α : Type u} (tl : TL) (stmts : List Stmt) (z : α) (w : Ep → α) (s : String) : α :=
   if (drivenSigs tl (sigDecls stmts) stmts).contains s then w (.fork s) else z
 
-theorem v_circ_model {α : Type u} (hok : VOK cfg tl ports stmts) (z : α) (neg : α → α) (prim : String → α → α → α → α → α) (a : Nat → α)
-    (w : Ep → α) (hc : CircModel (module cfg tl ports stmts) (module cfg tl ports stmts).ioVerilog z neg prim a w) :
-    VModel tl ports stmts z neg prim a (envOfW tl stmts z w) ∧ Agree cfg tl stmts z prim w (envOfW tl stmts z w) := by
+theorem not_hole_fork (HI : VInst → Prop) (f : String) : ¬ holeEp stmts HI (.fork f) := by
+  rintro ⟨_, _, _, _, h⟩; cases h
+
+theorem not_hole_input (hok : VOK cfg tl ports stmts) (HI : VInst → Prop) (n : String) (hn : n ∈ inputNames (sigDecls stmts)) (p : Nat) :
+    ¬ holeEp stmts HI (.cell n p) := by
+  rintro ⟨i, hi, _, q, h⟩
+  simp only [Ep.cell.injEq] at h
+  exact inst_not_port hok hi n (mem_portBitNames_of_input _ n hn) h.1.symm
+
+theorem not_hole_const (hok : VOK cfg tl ports stmts) (HI : VInst → Prop) (cn : String)
+    (hcn : cn ∈ constNames tl (sigDecls stmts) stmts) (p : Nat) : ¬ holeEp stmts HI (.cell cn p) := by
+  rintro ⟨i, hi, _, q, h⟩
+  simp only [Ep.cell.injEq] at h
+  exact (List.nodup_append.mp hok.cells).2.2 i.name (List.mem_append_left _ (List.mem_map.mpr ⟨i, hi, rfl⟩)) cn hcn h.1.symm
+
+theorem hole_inst_iff (hok : VOK cfg tl ports stmts) (HI : VInst → Prop) (i : VInst) (hi : i ∈ vInsts stmts) (p : Nat) :
+    holeEp stmts HI (.cell i.name p) ↔ HI i := by
+  constructor
+  · rintro ⟨j, hj, hH, q, h⟩
+    simp only [Ep.cell.injEq] at h
+    rw [inst_eq hok hi hj h.1]; exact hH
+  · intro h; exact ⟨i, hi, h, p, rfl⟩
+
+/-- **completeness with holes**: end-point values that satisfy the gate equation of every line not driven by a hole instance
+come from a model outside the holes -/
+theorem v_circ_model_off {α : Type u} (hok : VOK cfg tl ports stmts) (HI : VInst → Prop) (z : α) (neg : α → α)
+    (prim : String → α → α → α → α → α) (a : Nat → α) (w : Ep → α)
+    (hc : CircModelOff (module cfg tl ports stmts) (module cfg tl ports stmts).ioVerilog (holeEp stmts HI) z neg prim a w) :
+    VModelOff HI tl ports stmts z neg prim a (envOfW tl stmts z w) ∧ Agree cfg tl stmts z prim w (envOfW tl stmts z w) := by
   have hD : ∀ s, s ∈ drivenSigs tl (sigDecls stmts) stmts → w (.fork s) = envOfW tl stmts z w s := by
     intro s hs
     unfold envOfW
     simp [hs]
-  have hc' : ∀ t ∈ vFlat cfg tl (sigDecls stmts) stmts, w t.r = driveVal (vL cfg tl stmts) ((module cfg tl ports stmts).kindOf t.d)
+  have hc' : ∀ t ∈ vFlat cfg tl (sigDecls stmts) stmts, ¬ holeEp stmts HI t.d → w t.r = driveVal (vL cfg tl stmts) ((module cfg tl ports stmts).kindOf t.d)
       ((verilogNet cfg tl ports stmts).sPos ((module cfg tl ports stmts).nodeIdx t.d)) z neg prim a w t.d := by
-    intro t ht
-    have := hc (vl t) (by rw [module_flat' hok]; exact List.mem_map.mpr ⟨t, ht, rfl⟩)
+    intro t ht hH
+    have := hc (vl t) (by rw [module_flat' hok]; exact List.mem_map.mpr ⟨t, ht, rfl⟩) hH
     rw [module_flat' hok] at this
     exact this
   have hsv := fun s hs => sigVal_driven hok z prim (envOfW tl stmts z w) s hs
@@ -368,7 +436,7 @@ theorem v_circ_model {α : Type u} (hok : VOK cfg tl ports stmts) (z : α) (neg 
   have hfk : ∀ t ∈ vFlat cfg tl (sigDecls stmts) stmts, ∀ f, t.d = .fork f → w t.r = w (.fork f) := by
     intro t ht f hd
     have hres := v_resolved_driver hok t ht
-    rw [hc' t ht]
+    rw [hc' t ht (by rw [hd]; exact not_hole_fork HI f)]
     rw [hd] at hres ⊢
     exact v_drive_fork hok f hres (fork_driver_has_source hok t ht f hd) z neg prim a w
   -- every line carries the value of its signal
@@ -383,8 +451,8 @@ theorem v_circ_model {α : Type u} (hok : VOK cfg tl ports stmts) (z : α) (neg 
       by_cases hcl : isConstLit ts.2 = true
       · simp only [hcl, if_true, List.mem_singleton] at htp
         subst htp
-        rw [hc' _ ht, v_drive_const hok ts.2 k hcl (hst.nodes _ (by unfold pairNodes; simp [hcl])) (hst.cname hcl),
-          sigVal_lit z prim _ _ hcl]
+        rw [hc' _ ht (not_hole_const hok HI _ (hst.cname hcl) 0),
+          v_drive_const hok ts.2 k hcl (hst.nodes _ (by unfold pairNodes; simp [hcl])) (hst.cname hcl), sigVal_lit z prim _ _ hcl]
       · simp only [hcl, Bool.false_eq_true, if_false, List.mem_singleton] at htp
         subst htp
         have hsd : ts.2 ∈ drivenSigs tl (sigDecls stmts) stmts := by
@@ -398,13 +466,14 @@ theorem v_circ_model {α : Type u} (hok : VOK cfg tl ports stmts) (z : α) (neg 
         · simp only [hl, if_true]
           have hm := hst.lines ⟨.cell (constName c.2.2 k) 0, .fork (constName c.2.2 k), c.2.2⟩ (by
             rw [mem_connLines]; exact Or.inl ⟨hl, rfl⟩)
-          have := hc' _ hm
+          have := hc' _ hm (not_hole_const hok HI _ (hst.cname hl) 0)
           simp only at this
           rw [this, v_drive_const hok c.2.2 k hl (hst.nodes _ (by unfold connNodes; simp [hl])) (hst.cname hl), sigVal_lit z prim _ _ hl]
         · simp only [hl, Bool.false_eq_true, if_false]
           rw [hD _ hd, hsv _ hd]
       rcases (mem_connLines cfg.bf k i c t).mp htc with ⟨hl, rfl⟩ | ⟨hb, rfl | rfl⟩ | ⟨hb, rfl⟩
-      · rw [hc' _ ht, v_drive_const hok c.2.2 k hl (hst.nodes _ (by unfold connNodes; simp [hl])) (hst.cname hl), sigVal_lit z prim _ _ hl]
+      · rw [hc' _ ht (not_hole_const hok HI _ (hst.cname hl) 0),
+          v_drive_const hok c.2.2 k hl (hst.nodes _ (by unfold connNodes; simp [hl])) (hst.cname hl), sigVal_lit z prim _ _ hl]
       · rw [hfk _ ht _ rfl]; exact hsrc
       · have hm1 := hst.lines ⟨.fork (srcFork k c), .fork (branchName (srcFork k c) i.name c.1), c.2.2⟩ (by
           rw [mem_connLines]; exact Or.inr (Or.inl ⟨hb, Or.inl rfl⟩))
@@ -416,11 +485,11 @@ theorem v_circ_model {α : Type u} (hok : VOK cfg tl ports stmts) (z : α) (neg 
     · have hd := hok.outs n hn
       rw [hfk _ ht n rfl, hD _ hd, hsv _ hd]
   refine ⟨⟨?_, ?_, ?_, ?_⟩, ⟨hall, fun s hs => hD s hs⟩⟩
-  · intro i hi o ho
+  · intro i hi hnH o ho
     have hmem := vFlat_inst_out (cfg := cfg) (sigDecls stmts) i hi o ho
     have hd := (mem_drivenSigs (tl := tl) (stmts := stmts) (sigDecls stmts) o.2).mpr (Or.inl ⟨i, hi, o, ho, rfl⟩)
     rw [← hD _ hd]
-    have := hc' _ hmem
+    have := hc' _ hmem (fun h => hnH ((hole_inst_iff hok HI i hi o.1).mp h))
     simp only at this
     rw [this]
     exact v_drive_inst hok i hi o.1 z neg prim a w _ (fun t ht _ => hall t ht)
@@ -428,7 +497,7 @@ theorem v_circ_model {α : Type u} (hok : VOK cfg tl ports stmts) (z : α) (neg 
     have hmem := vFlat_input (cfg := cfg) (tl := tl) (stmts := stmts) (sigDecls stmts) n hn
     have hd := (mem_drivenSigs (tl := tl) (stmts := stmts) (sigDecls stmts) n).mpr (Or.inr (Or.inl hn))
     rw [← hD _ hd]
-    have := hc' _ hmem
+    have := hc' _ hmem (not_hole_input hok HI n hn 0)
     simp only at this
     rw [this]
     exact v_drive_input hok n hn z neg prim a w
@@ -446,6 +515,44 @@ theorem v_circ_model {α : Type u} (hok : VOK cfg tl ports stmts) (z : α) (neg 
     unfold envOfW
     rw [hs]
     rfl
+
+theorem v_circ_model {α : Type u} (hok : VOK cfg tl ports stmts) (z : α) (neg : α → α) (prim : String → α → α → α → α → α) (a : Nat → α)
+    (w : Ep → α) (hc : CircModel (module cfg tl ports stmts) (module cfg tl ports stmts).ioVerilog z neg prim a w) :
+    VModel tl ports stmts z neg prim a (envOfW tl stmts z w) ∧ Agree cfg tl stmts z prim w (envOfW tl stmts z w) := by
+  obtain ⟨h1, h2⟩ := v_circ_model_off hok (fun _ => False) z neg prim a w (fun p hp _ => hc p hp)
+  exact ⟨(vModel_iff_off z neg prim a _).mpr h1, h2⟩
+
+/-- **completeness with holes** on the net: a labelling that is consistent outside a node set `S` containing only hole
+instances' nodes (among the drivers of lines) is the labelling of a model outside the holes -/
+theorem v_labelling_model_off {α : Type u} (hok : VOK cfg tl ports stmts) (HI : VInst → Prop) (S : Nat → Prop)
+    (hSH : ∀ t ∈ vFlat cfg tl (sigDecls stmts) stmts, S ((module cfg tl ports stmts).nodeIdx t.d) → holeEp stmts HI t.d)
+    (z : α) (neg : α → α) (prim : String → α → α → α → α → α)
+    (a : Nat → α) (v : Nat → α) (hv : NetLabellingOff (verilogNet cfg tl ports stmts) S z neg prim a v) :
+    ∃ σ, VModelOff HI tl ports stmts z neg prim a σ ∧
+      ∀ i, i < (verilogNet cfg tl ports stmts).lines.size → v i = vLabel cfg tl stmts z prim σ i := by
+  have hnd : ((flatLines (module cfg tl ports stmts)).map (·.2)).Nodup := by
+    rw [module_flat' hok]
+    unfold vL
+    rw [List.map_map]
+    exact vFlat_readers_nodup hok
+  have hSH' : ∀ p ∈ flatLines (module cfg tl ports stmts), S ((module cfg tl ports stmts).nodeIdx p.1) → holeEp stmts HI p.1 := by
+    intro p hp
+    rw [module_flat' hok] at hp
+    obtain ⟨t, ht, rfl⟩ := List.mem_map.mp hp
+    exact hSH t ht
+  obtain ⟨hcm, hvw⟩ := circ_labelling_model_off _ _ (v_resolved_all hok) hnd S (holeEp stmts HI) hSH' z neg prim a v hv
+  obtain ⟨hm, hag⟩ := v_circ_model_off hok HI z neg prim a _ hcm
+  refine ⟨_, hm, ?_⟩
+  intro i hi
+  rw [verilogNet_lines_size hok] at hi
+  have hi' : i < (flatLines (module cfg tl ports stmts)).length := by rw [module_flat' hok, vL_length]; exact hi
+  rw [hvw i hi', vLabel_eq _ _ _ i hi]
+  have hget : (flatLines (module cfg tl ports stmts))[i].2 = ((vFlat cfg tl (sigDecls stmts) stmts)[i]).r := by
+    have := vL_get (cfg := cfg) (tl := tl) (stmts := stmts) i (by rw [vL_length]; exact hi)
+    simp only [module_flat' hok, this]
+    rfl
+  simp only [hget]
+  exact hag.lines _ (List.getElem_mem hi)
 
 theorem v_labelling_model {α : Type u} (hok : VOK cfg tl ports stmts) (z : α) (neg : α → α) (prim : String → α → α → α → α → α)
     (a : Nat → α) (v : Nat → α) (hv : NetLabelling (verilogNet cfg tl ports stmts) z neg prim a v) :
@@ -472,12 +579,13 @@ theorem v_labelling_model {α : Type u} (hok : VOK cfg tl ports stmts) (z : α) 
 
 /-! ## one model per labelling -/
 
-theorem v_model_unique {α : Type u} (hok : VOK cfg tl ports stmts) (z : α) (neg : α → α) (prim : String → α → α → α → α → α)
-    (a : Nat → α) (σ σ' : String → α) (hm : VModel tl ports stmts z neg prim a σ) (hm' : VModel tl ports stmts z neg prim a σ')
+theorem v_model_unique_off {α : Type u} (hok : VOK cfg tl ports stmts) (HI HI' : VInst → Prop) (z : α) (neg : α → α)
+    (prim : String → α → α → α → α → α)
+    (a a' : Nat → α) (σ σ' : String → α) (hm : VModelOff HI tl ports stmts z neg prim a σ) (hm' : VModelOff HI' tl ports stmts z neg prim a' σ')
     (h : ∀ i, i < (verilogNet cfg tl ports stmts).lines.size → vLabel cfg tl stmts z prim σ i = vLabel cfg tl stmts z prim σ' i) :
     σ = σ' := by
-  have hag := v_model_forks (cfg := cfg) hok z neg prim a σ hm
-  have hag' := v_model_forks (cfg := cfg) hok z neg prim a σ' hm'
+  have hag := v_pairs_forks (cfg := cfg) hok z prim σ hm.2.2.1
+  have hag' := v_pairs_forks (cfg := cfg) hok z prim σ' hm'.2.2.1
   funext s
   by_cases hs : s ∈ drivenSigs tl (sigDecls stmts) stmts
   · obtain ⟨t, ht, hr⟩ := driven_has_line (cfg := cfg) (sigDecls stmts) s hs
@@ -486,5 +594,11 @@ theorem v_model_unique {α : Type u} (hok : VOK cfg tl ports stmts) (z : α) (ne
     rw [vLabel_eq z prim σ j hj, vLabel_eq z prim σ' j hj, hjt, ← hag.lines t ht, ← hag'.lines t ht, hr, hag.forks s hs, hag'.forks s hs] at this
     exact this
   · rw [hm.2.2.2 s (by simpa using hs), hm'.2.2.2 s (by simpa using hs)]
+
+theorem v_model_unique {α : Type u} (hok : VOK cfg tl ports stmts) (z : α) (neg : α → α) (prim : String → α → α → α → α → α)
+    (a : Nat → α) (σ σ' : String → α) (hm : VModel tl ports stmts z neg prim a σ) (hm' : VModel tl ports stmts z neg prim a σ')
+    (h : ∀ i, i < (verilogNet cfg tl ports stmts).lines.size → vLabel cfg tl stmts z prim σ i = vLabel cfg tl stmts z prim σ' i) :
+    σ = σ' :=
+  v_model_unique_off hok _ _ z neg prim a a σ σ' ((vModel_iff_off z neg prim a σ).mp hm) ((vModel_iff_off z neg prim a σ').mp hm') h
 
 end KV.Netlist
